@@ -104,6 +104,19 @@ def meta_histories():
         ('va', 'e2', [['AddField', 'Item', 'n1', 'Int', {'null': True},
                        None]]),
     ]))
+    # string parameters with percent signs, quotes and backslashes (initial
+    # values are bound as parameters when executed and written into the
+    # statement by the preview)
+    out.append(('param-percent', v0, [
+        ('va', 'e1', [['AddField', 'Item', 'n1', 'Char', {'max_length': 20},
+                       '50%'],
+                      ['AddField', 'Item', 'n2', 'Char', {'max_length': 20},
+                       '%s of 100%%']]),
+        ('va', 'e2', [['ChangeField', 'Item', 'b', {'null': False}, 7,
+                       None],
+                      ['AddField', 'Item', 'n3', 'Char', {'max_length': 20},
+                       "it's 5%"]]),
+    ]))
     return out
 
 
@@ -147,6 +160,15 @@ def cases_for(tier):
     out.append(('delete-models', vdel, [
         ('va', 'e1', [['DeleteModel', n] for n in
                       ('Alpha', 'Bravo', 'Charlie', 'Delta')])], 0, 1))
+    # a model that owns several many-to-many relations is deleted (one
+    # table per relation goes with it: in which order?)
+    vm2m = P(A('va', [
+        M('Item', [F('a', 'Char', max_length=20)]),
+        M('Hub', [F('x', 'Int', null=True)] + [
+            F(n, 'M2M', to='va.Item', related_name='+')
+            for n in ('tags', 'links', 'marks', 'refs')])]))
+    out.append(('delete-model-with-m2ms', vm2m, [
+        ('va', 'e1', [['DeleteModel', 'Hub']])], 0, 1))
     hs = c04.gen_histories(c03.narrow_start(), 2, 'lite', c04.KINDS)
     stride = 4 if tier == 'quick' else 1
     for n, steps in enumerate(hs):
